@@ -154,12 +154,23 @@ Theorem C02_float64_error_bounds_partial : forall sq, sq_ok sq ->
   (forall x y, exists v, numf (@T_planar_rho (FLib sq) XY x y) = Some v /\ Rabs (v - sqrt (x * x + y * y)) <= h3 * sqrt (x * x + y * y)) /\
   (forall x y z, exists v, numf (@T_spatial_mag (FLib sq) XY LZ x y z) = Some v /\
      Rabs (v - sqrt (x * x + y * y + z * z)) <= h4 * sqrt (x * x + y * y + z * z)) /\
+  (forall x1 y1 z1 x2 y2 z2, exists a b c, den3f (@T_spatial_add (FLib sq) XY LZ XY LZ x1 y1 z1 x2 y2 z2) = Some (a, b, c) /\
+     Rabs (a - (x1 + x2)) <= u53 * Rabs (x1 + x2) /\ Rabs (b - (y1 + y2)) <= u53 * Rabs (y1 + y2) /\ Rabs (c - (z1 + z2)) <= u53 * Rabs (z1 + z2)) /\
+  (forall x1 y1 z1 x2 y2 z2, exists a b c, den3f (@T_spatial_subtract (FLib sq) XY LZ XY LZ x1 y1 z1 x2 y2 z2) = Some (a, b, c) /\
+     Rabs (a - (x1 - x2)) <= u53 * Rabs (x1 - x2) /\ Rabs (b - (y1 - y2)) <= u53 * Rabs (y1 - y2) /\ Rabs (c - (z1 - z2)) <= u53 * Rabs (z1 - z2)) /\
+  (forall x1 y1 z1 x2 y2 z2, exists a b c, den3f (@T_spatial_cross (FLib sq) XY LZ XY LZ x1 y1 z1 x2 y2 z2) = Some (a, b, c) /\
+     Rabs (a - (y1 * z2 - z1 * y2)) <= g2 * (Rabs (y1 * z2) + Rabs (z1 * y2)) /\
+     Rabs (b - (z1 * x2 - x1 * z2)) <= g2 * (Rabs (z1 * x2) + Rabs (x1 * z2)) /\
+     Rabs (c - (x1 * y2 - y1 * x2)) <= g2 * (Rabs (x1 * y2) + Rabs (y1 * x2))) /\
+  (forall x y z t, exists v e, numf (@T_lorentz_tau2 (FLib sq) XY LZ TT x y z t) = Some v /\ numr (@T_lorentz_tau2 RLib XY LZ TT x y z t) = Some e /\
+     e = t * t - (x * x + y * y + z * z) /\ Rabs (v - e) <= h4 * (t * t + x * x + y * y + z * z)) /\
   (g2 <= 3 * u53 /\ g3 <= 4 * u53 /\ g4 <= 5 * u53 /\ h2 <= 4 * u53 /\ h3 <= 5 * u53 /\ h4 <= 6 * u53) /\ u53 = / IZR (2 ^ 53).
 Proof.
   intros sq Hsq.
   exact (conj (dot2_float_error sq) (conj (dot3_float_error sq) (conj (dot4_float_error sq) (conj (fun x y => rho2_float_error sq x y Hsq)
     (conj (fun x y z => mag2_float_error sq x y z Hsq) (conj (fun x y => rho_float_error sq x y Hsq) (conj (fun x y z => mag_float_error sq x y z Hsq)
-    (conj g_numeric u53_value)))))))).
+    (conj (add3_float_error sq) (conj (subtract3_float_error sq) (conj (cross_float_error sq) (conj (fun x y z t => tau2_float_error sq x y z t Hsq)
+    (conj g_numeric u53_value)))))))))))).
 Qed.
 
 (* the squaring contract is satisfiable (by the correctly rounded multiplication) *)
